@@ -64,9 +64,12 @@ class VirtualPool(object):
         """a scheduling point: the next block of the schedule completes (at least one task: fairness)"""
         if self.schedule is None:
             self.schedule = self.source(len(self.tasks))
+            if self.schedule is None:
+                self.schedule = [list(range(len(self.tasks)))]
         if self.step < len(self.schedule):
             for i in self.schedule[self.step]:
-                self.tasks[i].complete()
+                if i < len(self.tasks):
+                    self.tasks[i].complete()
             self.step += 1
         else:
             for t in self.tasks:
@@ -267,15 +270,19 @@ def explore_batches(shard):
     for names in shard['batches']:
         for processes in (1, 2, 3, 4):
             for mcs in (0, 1, 2, 20):
-                # number of chunks the code will make (restated to enumerate schedules; validated against the pool below)
-                if len(names) <= mcs:
-                    scheds = [[]]
+                # the number of chunk tasks is observed, not restated: a probe run with the "everything completes at the first poll"
+                # schedule tells how many tasks the code creates for this batch, then every schedule over that many tasks is explored
+                _state_log.clear()
+                try:
+                    _, ktasks = run_batch(list(names), pool, max_step, processes, mcs, None)
+                except Exception:
+                    ktasks = 0
+                if ktasks <= 1:
+                    scheds = [None]
                 else:
-                    per = -(-len(names) // max(processes, 1))
-                    k = len(range(0, len(names), per))
-                    scheds = ordered_partitions(k)
-                    if k == 4 and shard['tier'] == 'quick':
-                        scheds = [s for s in scheds if len(s) in (1, 4)]       # all at once + all 24 total orders
+                    scheds = ordered_partitions(ktasks)
+                    if ktasks >= 4 and shard['tier'] == 'quick':
+                        scheds = [s for s in scheds if len(s) in (1, ktasks)]       # all at once + all total orders
                         st.count('schedules_pruned_k4')
                 for sched in scheds:
                     _state_log.clear()
@@ -290,8 +297,8 @@ def explore_batches(shard):
                     for s in _state_log:
                         st.add('states', hash(s))
                     st.add('schedules', (ntasks, repr(sched)))
-                    if len(names) > mcs and sched and sum(len(b) for b in sched) != ntasks:
-                        raise boot.HarnessError(f'schedule enumerated for {sum(len(b) for b in sched)} chunks but the code made {ntasks}')
+                    if sched and sum(len(b) for b in sched) != ntasks:
+                        raise boot.HarnessError(f'the code made {ntasks} tasks now but {sum(len(b) for b in sched)} in the probe run of the same batch')
                     if len(res) != len(names):
                         st.violation('batch/length', f'{len(res)} result lists for {len(names)} sentences', **base)
                         continue
@@ -499,6 +506,9 @@ def replay(rec):
         pool = sentence_pool()
         res, _ = run_batch(rec['batch'], pool, rec['max_step'], rec['processes'], rec['max_chunk_size'], rec['schedule'])
         bad = 0
+        if len(res) != len(rec['batch']):
+            print(f"{len(res)} result lists for {len(rec['batch'])} sentences")
+            return 1
         for i, nm in enumerate(rec['batch']):
             s, _ = run_batch([nm], pool, rec['max_step'], 1, 20, [])
             a, b = canon_result(res[i]), canon_result(s[0])
